@@ -6,7 +6,7 @@ import ast
 import re
 
 from ..astutil import (
-    call_name, calls_in, dotted, guard_atoms, lexical_guards, name_stores, unparse, walk_local,
+    call_name, calls_in, dotted, guard_atoms, lexical_guards, name_stores, test_atoms, unparse, walk_local,
 )
 from ..evalx import has_unknown
 from ..index import ClassInfo
@@ -360,6 +360,65 @@ def r2(ctx):
 # whatever the spelling (`M.get(k, k)`, `M[k] if k in M else k`, if/else statement, comprehension or loop, aliases,
 # inverted branches, early returns, callback as def or lambda).  Order of appearance and the numbering guard are
 # def-use / dominating-branch-outcome queries.
+def _membership_normal_form(ctx, f, test: ast.expr, depth: int = 0) -> ast.expr:
+    """A branch condition with everything that merely *names* a membership test spelled out, so that the guard can
+    be read as atoms `x in <collection>`:
+      * single-assignment locals are replaced by what they name (attribute chains, conditions, set unions, calls);
+      * `self.helper(args)` whose body is one `return <expr>` is replaced by that expression (parameters bound);
+      * `x in (A | B)` / `x in A.union(B, ...)` becomes `x in A or x in B ...`, `x not in ...` its negation.
+    The result is only used to read guards; it is never executed."""
+    import copy
+    fn = f.node
+    subst = RC.single_bindings(fn, kinds=(ast.Attribute, ast.Compare, ast.BoolOp, ast.UnaryOp, ast.Name, ast.BinOp, ast.Call))
+    subst = {k: v for k, v in subst.items()
+             if not any(isinstance(n, (ast.Await, ast.Yield, ast.NamedExpr, ast.Lambda)) for n in ast.walk(v))}
+    e = RC.substitute(test, subst)
+    recv = f.params[0] if f.cls is not None and f.params else None
+
+    class Inline(ast.NodeTransformer):
+        def visit_Call(self, node):
+            self.generic_visit(node)
+            if depth < 2 and recv and isinstance(node.func, ast.Attribute) and isinstance(node.func.value, ast.Name) \
+                    and node.func.value.id == recv and not any(isinstance(a, ast.Starred) for a in node.args) \
+                    and not any(k.arg is None for k in node.keywords):
+                tgt = ctx.index.resolve_method(f.cls, node.func.attr)
+                if tgt is not None and tgt.params:
+                    body = [st for st in tgt.node.body
+                            if not (isinstance(st, ast.Expr) and isinstance(st.value, ast.Constant))]
+                    if len(body) == 1 and isinstance(body[0], ast.Return) and body[0].value is not None:
+                        ps = tgt.params[1:]
+                        if len(node.args) <= len(ps):
+                            m = {tgt.params[0]: ast.Name(id=recv, ctx=ast.Load())}
+                            m.update({p: a for p, a in zip(ps, node.args)})
+                            m.update({k.arg: k.value for k in node.keywords if k.arg in ps})
+                            if all(p in m for p in ps):
+                                inner = _membership_normal_form(ctx, tgt, body[0].value, depth + 1)
+                                return RC.substitute(inner, m)
+            return node
+
+    class Unions(ast.NodeTransformer):
+        def parts(self, c):
+            if isinstance(c, ast.BinOp) and isinstance(c.op, ast.BitOr):
+                return self.parts(c.left) + self.parts(c.right)
+            if isinstance(c, ast.Call) and isinstance(c.func, ast.Attribute) and c.func.attr == "union" and not c.keywords:
+                return self.parts(c.func.value) + [x for a in c.args for x in self.parts(a)]
+            return [c]
+
+        def visit_Compare(self, node):
+            self.generic_visit(node)
+            if len(node.ops) == 1 and isinstance(node.ops[0], (ast.In, ast.NotIn)):
+                ps = self.parts(node.comparators[0])
+                if len(ps) > 1:
+                    alt = ast.BoolOp(op=ast.Or(), values=[
+                        ast.Compare(left=copy.deepcopy(node.left), ops=[ast.In()], comparators=[p_]) for p_ in ps])
+                    return alt if isinstance(node.ops[0], ast.In) else ast.UnaryOp(op=ast.Not(), operand=alt)
+            return node
+
+    e = Inline().visit(copy.deepcopy(e))
+    e = Unions().visit(e)
+    return ast.fix_missing_locations(e)
+
+
 def _r3_run(ctx, f):
     def resolve_method(nm, f=f):
         r = ctx.index.resolve_method(f.cls, nm) if f.cls is not None else None
@@ -471,7 +530,6 @@ def r3(ctx):
     # (6) numbering skips post-compile / literal-execute parameters: every increment of the position counter is
     #     dominated by the outcomes `bind not in post_compile_params` and `bind not in literal_execute_params`
     g = ctx.cfg(pn)
-    subst = RC.pure_alias_bindings(pn.node)
     counters = {n.value.id for n in walk_local(pn.node) if isinstance(n, ast.Assign) and isinstance(n.value, ast.Name)
                 and any(self_attr(t) == "next_numeric_pos" for t in n.targets)}
     ctx.require(len(counters) == 1, "_process_numeric: the position counter stored into next_numeric_pos was not found")
@@ -481,14 +539,19 @@ def r3(ctx):
             or (isinstance(n, ast.Assign) and any(isinstance(t, ast.Name) and t.id == counter for t in n.targets)
                 and any(isinstance(x, ast.Name) and x.id == counter for x in ast.walk(n.value)))]
     ctx.require(incs, "_process_numeric: the position counter is never advanced")
-    ok = True
+    missing = set()
     for inc in incs:
         for nid in g.nodes_for(inc):
-            atoms = RC.dominating_atoms(g, nid, subst)
+            atoms = []
+            for t, pol in g.edge_guards(nid):
+                atoms.extend(test_atoms(_membership_normal_form(ctx, pn, t), pol))
             for coll in ("post_compile_params", "literal_execute_params"):
                 if not any(re.search(rf" in (\w+\.)*{coll}$", a) and not pol for a, pol in atoms):
-                    ok = False
-    ctx.check(ok, pn.key + ":numbering", "numeric placeholders are also numbered for post-compile / literal-execute parameters",
+                    missing.add(coll)
+    ctx.check(not missing, pn.key + ":numbering",
+              "numeric placeholders are also numbered for post-compile / literal-execute parameters: the position counter "
+              f"advances on a path that is not restricted to `bind not in {' / '.join(sorted(missing))}` (such a bind is "
+              "rendered inline and never delivered, every later placeholder points one slot too far)",
               "only real binds are numbered", pn.loc)
 
 
@@ -1018,3 +1081,130 @@ R.mutant("benign-r2-translation-in-a-helper-method", COMP, chain(
 R.mutant("r3-positional-escaped-branch-forgets-positiontup", COMP, sub(
     "            self.positiontup = [\n                reverse_escape.get(name, name) for name in positions\n            ]\n",
     "            positions = [\n                reverse_escape.get(name, name) for name in positions\n            ]\n"), "C04-R3")
+
+# ---- round-2 seeds (str2-c): both were caught by the round-1 / rob-C3 rules unchanged.  Essence of each seed +
+# behaviour-preserving neighbours of the same edit.
+# seed C04_3 == "r3-numeric-literal-execute-params-numbered" above (the guard of the numbering narrowed to
+# post_compile_params).  Neighbours: the two exclusions merged into one set / answered by a helper method /
+# written as the De Morgan dual with the arms swapped.
+R.mutant("benign-r3-numeric-exclusions-through-a-union-local", COMP, sub(
+    _PN_LOOP_OLD,
+    "            rendered_inline = self.post_compile_params | self.literal_execute_params\n"
+    "            if bind in rendered_inline:\n"
+    "                param_pos[bind_name] = None  # type: ignore[assignment]\n"
+    "            else:\n"
+    "                ph = f\"{self._numeric_binds_identifier_char}{num}\"\n"
+    "                num += 1\n"
+    "                param_pos[bind_name] = ph\n"), None)
+R.mutant("benign-r3-numeric-exclusions-de-morgan-arms-swapped", COMP, sub(
+    _PN_LOOP_OLD,
+    "            if (\n"
+    "                bind not in self.literal_execute_params\n"
+    "                and bind not in self.post_compile_params\n"
+    "            ):\n"
+    "                ph = f\"{self._numeric_binds_identifier_char}{num}\"\n"
+    "                num += 1\n"
+    "                param_pos[bind_name] = ph\n"
+    "            else:\n"
+    "                param_pos[bind_name] = None  # type: ignore[assignment]\n"), None)
+R.mutant("benign-r3-numeric-exclusions-in-a-helper-method", COMP, chain(
+    sub(_PN_LOOP_OLD,
+        "            if self._rendered_inline(bind):\n"
+        "                param_pos[bind_name] = None  # type: ignore[assignment]\n"
+        "            else:\n"
+        "                ph = f\"{self._numeric_binds_identifier_char}{num}\"\n"
+        "                num += 1\n"
+        "                param_pos[bind_name] = ph\n"),
+    sub("    def _process_numeric(self):\n",
+        "    def _rendered_inline(self, bind):\n"
+        "        return (\n"
+        "            bind in self.post_compile_params\n"
+        "            or bind in self.literal_execute_params\n"
+        "        )\n\n"
+        "    def _process_numeric(self):\n")), None)
+R.mutant("r3-numeric-union-local-forgets-literal-execute", COMP, sub(
+    _PN_LOOP_OLD,
+    "            rendered_inline = self.post_compile_params | frozenset()\n"
+    "            if bind in rendered_inline:\n"
+    "                param_pos[bind_name] = None  # type: ignore[assignment]\n"
+    "            else:\n"
+    "                ph = f\"{self._numeric_binds_identifier_char}{num}\"\n"
+    "                num += 1\n"
+    "                param_pos[bind_name] = ph\n"), "C04-R3")
+# seed C04_4: _init_compiled re-keys the row to escaped names first and then looks the processors up by that key
+_IC_OLD = (
+    "                if escaped_names:\n"
+    "                    d_param = {\n"
+    "                        escaped_names.get(key, key): (\n"
+    "                            flattened_processors[key](compiled_params[key])\n"
+    "                            if key in flattened_processors\n"
+    "                            else compiled_params[key]\n"
+    "                        )\n"
+    "                        for key in compiled_params\n"
+    "                    }\n"
+    "                else:\n"
+    "                    d_param = {\n"
+    "                        key: (\n"
+    "                            flattened_processors[key](compiled_params[key])\n"
+    "                            if key in flattened_processors\n"
+    "                            else compiled_params[key]\n"
+    "                        )\n"
+    "                        for key in compiled_params\n"
+    "                    }\n"
+)
+R.mutant("r4-init-compiled-processors-looked-up-after-rekey", DEFAULT, sub(
+    _IC_OLD,
+    "                if escaped_names:\n"
+    "                    compiled_params = {\n"
+    "                        escaped_names.get(key, key): compiled_params[key]\n"
+    "                        for key in compiled_params\n"
+    "                    }\n\n"
+    "                d_param = {\n"
+    "                    key: (\n"
+    "                        flattened_processors[key](compiled_params[key])\n"
+    "                        if key in flattened_processors\n"
+    "                        else compiled_params[key]\n"
+    "                    )\n"
+    "                    for key in compiled_params\n"
+    "                }\n"), "C04-R4")
+R.mutant("benign-r4-init-compiled-merged-comprehension-raw-lookup", DEFAULT, sub(
+    _IC_OLD,
+    "                d_param = {\n"
+    "                    (escaped_names.get(key, key) if escaped_names else key): (\n"
+    "                        flattened_processors[key](compiled_params[key])\n"
+    "                        if key in flattened_processors\n"
+    "                        else compiled_params[key]\n"
+    "                    )\n"
+    "                    for key in compiled_params\n"
+    "                }\n"), None)
+R.mutant("benign-r4-init-compiled-process-then-rekey", DEFAULT, sub(
+    _IC_OLD,
+    "                processed = {\n"
+    "                    key: (\n"
+    "                        flattened_processors[key](compiled_params[key])\n"
+    "                        if key in flattened_processors\n"
+    "                        else compiled_params[key]\n"
+    "                    )\n"
+    "                    for key in compiled_params\n"
+    "                }\n"
+    "                if escaped_names:\n"
+    "                    d_param = {\n"
+    "                        escaped_names.get(key, key): value\n"
+    "                        for key, value in processed.items()\n"
+    "                    }\n"
+    "                else:\n"
+    "                    d_param = processed\n"), None)
+R.mutant("r4-init-compiled-process-then-rekey-twice", DEFAULT, sub(
+    _IC_OLD,
+    "                processed = {\n"
+    "                    escaped_names.get(key, key): compiled_params[key]\n"
+    "                    for key in compiled_params\n"
+    "                }\n"
+    "                d_param = {\n"
+    "                    key: (\n"
+    "                        flattened_processors[key](value)\n"
+    "                        if key in flattened_processors\n"
+    "                        else value\n"
+    "                    )\n"
+    "                    for key, value in processed.items()\n"
+    "                }\n"), "C04-R4")
